@@ -317,7 +317,7 @@ def autoshape_member(name_or_index):
 def target_shapes(w, deck, a):
     """Shape collection to add into: slide.shapes or a (possibly nested) group's shapes."""
     sl, shapes = nav_shapes(w, deck, a)
-    if a.get("turbo") and a.get("held"):
+    if a.get("turbo") and a.get("held") and not shapes.turbo_add_enabled:
         shapes.turbo_add_enabled = True
         w.stats.hit("turbo_on")
     g = a.get("group")
